@@ -1,4 +1,5 @@
 import H2T.Lemmas.WrapInv
+import H2T.Lemmas.Marks
 
 /-! C13, text level: in normal white-space mode a run of whitespace characters has the effect of a single one, and
     which whitespace characters it consists of does not matter — so two texts that differ only in how their
@@ -6,10 +7,10 @@ import H2T.Lemmas.WrapInv
 
 namespace H2T
 
-theorem flushWord_wordlen (b b' : WB) (m : WS) (h : b.flushWord m = .ok b') : b'.wordlen = 0 := by
+theorem flushWord_wordlen (b b' : WB) (m : WS) (h : b.flushWord m = .ok b') : b'.wordlen = 0 ∧ b'.word.noContent = true := by
   unfold WB.flushWord at h
   split at h
-  · injection h with h; subst h; rfl
+  · rename_i hn; injection h with h; subst h; exact ⟨rfl, hn⟩
   · simp only at h
     split at h
     · simp at h
@@ -18,8 +19,8 @@ theorem flushWord_wordlen (b b' : WB) (m : WS) (h : b.flushWord m = .ok b') : b'
         split at h
         · cases hs : b.spacetag with
           | none => simp [hs] at h
-          | some t => simp only [hs] at h; injection h with h; subst h; rfl
-        · injection h with h; subst h; rfl
+          | some t => simp only [hs] at h; injection h with h; subst h; exact ⟨rfl, rfl⟩
+        · injection h with h; subst h; exact ⟨rfl, rfl⟩
       · cases h1 : ({ b with preWrapped := false } : WB).disposeWs m with
         | error e => simp [h1, andThen] at h
         | ok b1 =>
@@ -30,7 +31,13 @@ theorem flushWord_wordlen (b b' : WB) (m : WS) (h : b.flushWord m = .ok b') : b'
             simp only [h2] at h
             cases h3 : ({ b4 with word := [], wordlen := 0 } : WB).hardWrap b.word with
             | error e => simp [h3] at h
-            | ok b5 => simp only [h3] at h; injection h with h; subst h; rfl
+            | ok b5 =>
+              simp only [h3] at h; injection h with h; subst h
+              refine ⟨rfl, ?_⟩
+              show b5.word.noContent = true
+              have hc : b.word.noContent = false := by
+                rename_i hn _ _; simpa using hn
+              rw [(hardWrap_marks _ b5 b.word rfl hc h3).2.1]; rfl
 
 /-- in normal mode a whitespace character's effect does not depend on which whitespace character it is -/
 theorem addChar_ws_indep (b : WB) (mt wt : Tag) (cur : Bool) (c1 c2 : Ch) (h1 : c1.ws = true) (h2 : c2.ws = true) :
@@ -41,16 +48,16 @@ theorem addChar_ws_indep (b : WB) (mt wt : Tag) (cur : Bool) (c1 c2 : Ch) (h1 : 
 /-- the state after a whitespace character (normal mode): no word is pending -/
 theorem addChar_ws_wordlen (b b1 : WB) (mt wt : Tag) (cur cur1 : Bool) (c : Ch) (hc : c.ws = true)
     (h : b.addChar .normal mt wt cur c = .ok (b1, cur1)) :
-    b1.wordlen = 0 ∧ cur1 = cur ∧ ¬ (b1.linelen > 0 ∧ b1.wslen = 0) := by
+    b1.word.noContent = true ∧ cur1 = cur ∧ ¬ (b1.linelen > 0 ∧ b1.wslen = 0) := by
   unfold WB.addChar at h
   simp only [hc, WS.preserve, Bool.true_and, if_true, Bool.false_eq_true, if_false] at h
-  generalize hr : (if decide (b.wordlen > 0) = true then b.flushWord .normal else Except.ok b) = r at h
+  generalize hr : (if (!b.word.noContent) = true then b.flushWord .normal else Except.ok b) = r at h
   cases r with
   | error e => simp at h
   | ok b0 =>
-    have hw0 : b0.wordlen = 0 := by
+    have hw0 : b0.word.noContent = true := by
       split at hr
-      · exact flushWord_wordlen b b0 _ hr
+      · exact (flushWord_wordlen b b0 _ hr).2
       · rename_i hc0; injection hr with hr; subst hr; simpa using hc0
     simp only at h
     split at h
@@ -63,10 +70,10 @@ theorem addChar_ws_wordlen (b b1 : WB) (mt wt : Tag) (cur cur1 : Bool) (c : Ch) 
       simpa using hcond
 
 /-- directly after a whitespace character a second one is a no-op -/
-theorem addChar_ws_again (b1 : WB) (mt wt : Tag) (cur : Bool) (c : Ch) (hc : c.ws = true) (hw : b1.wordlen = 0)
+theorem addChar_ws_again (b1 : WB) (mt wt : Tag) (cur : Bool) (c : Ch) (hc : c.ws = true) (hw : b1.word.noContent = true)
     (hcond : ¬ (b1.linelen > 0 ∧ b1.wslen = 0)) : b1.addChar .normal mt wt cur c = .ok (b1, cur) := by
   unfold WB.addChar
-  simp only [hc, WS.preserve, Bool.true_and, if_true, Bool.false_eq_true, if_false, hw, Nat.lt_irrefl, decide_false]
+  simp only [hc, WS.preserve, Bool.true_and, if_true, Bool.false_eq_true, if_false, hw, Bool.not_true]
   rw [if_neg (by simpa using hcond)]
 
 /-- a run of whitespace acts like its first character -/
